@@ -356,14 +356,6 @@ fn record(out: &str, a: &Args) {
             }
             lists.push(LSpec { loc, ents });
         }
-        // Units whose pair-format lists contain the all-ones word as a first word are
-        // decided by the exhaustive model (MCListWriter); keep only 1 in 40 of them here so
-        // that the sampled traces are not dominated by that one situation.
-        let marker = ver <= 4
-            && lists.iter().any(|l| l.ents.iter().any(|e| e.k != "base" && e.k != "defloc" && e.a == m));
-        if marker && !rng.chance(1, 40) {
-            continue;
-        }
         let o = guarded(|| run_unit(ver, fmt, asz, le, lp, &lists, true));
         let lj: Vec<Value> = lists
             .iter()
